@@ -255,6 +255,22 @@ def writeTo (bound : Option Addr) (packet : Bytes) (dest : Addr) : Res Bytes :=
   | none => .panic
   | some src => udp4pkt packet dest src
 
+/-- Several `WriteTo` calls on one connection, whatever their interleaving.
+`WriteTo` assigns no field of `BroadcastRawUDPConn` and `udp4pkt` allocates its
+own buffer (both re-checked as facts, `Facts/Raw.lean`), so in the model a
+write has no effect on the connection: the frame handed to the underlying
+socket for each datagram is `writeTo` of that datagram alone, and stays what it
+is while other writes proceed.  (That the Go code shares no mutable memory
+between concurrent calls is NOT a consequence of this definition: it is
+checked on the real code by the concurrent-writer scenarios of the harness and
+by the race detector.) -/
+def writeAll (bound : Option Addr) : List (Bytes × Addr) → Res (List Bytes)
+  | [] => .ok []
+  | (p, d) :: rest => do
+    let f ← writeTo bound p d
+    let fs ← writeAll bound rest
+    pure (f :: fs)
+
 /-! ### ReadFrom (conn_unix.go:83-141) -/
 
 /-- `udpMatch(addr, bound)`; `addr.IP` is the 4-byte destination of the frame. -/
